@@ -177,12 +177,38 @@ func runC11(c *Ctx) {
 		c.Anchor("C11.3", "Decode")
 		bad := ""
 		n := 0
+		// the declared length: a value that stands for bytes [2,4) of the buffer being decoded,
+		// read on its own or cut out of the header word
+		isDeclared := func(v ssa.Value) bool {
+			_, off, k, ok := w.wireField(stripIntConv(w.resolveLoad(stripIntConv(v))))
+			return ok && off == 2 && k == 2
+		}
+		var declared []ssa.Value
+		var bufV ssa.Value
+		w.eachInstr(dec, func(in ssa.Instruction) {
+			if v, isV := in.(ssa.Value); isV && isIntType(v.Type()) && isDeclared(v) {
+				declared = append(declared, v)
+				if bufV == nil {
+					bufV, _, _, _ = w.wireField(stripIntConv(v))
+				}
+			}
+		})
 		for _, r := range returnsOf(dec) {
 			if !isNilConst(w.resolveLoad(r.Results[0])) {
 				continue
 			}
 			n++
 			okValid, okLen := false, false
+			// 4 + declared ≤ len(buf), by linear reasoning from the facts at the return — whatever
+			// form the test takes (an end offset compared with len(buf), …)
+			if bufV != nil {
+				a := w.absint()
+				for _, d := range declared {
+					if ok, _ := a.proveLinearOff(termOf(d), Term{V: bufV, Len: true}, r, 4); ok {
+						okLen = true
+					}
+				}
+			}
 			for _, f := range w.factsAt(r) {
 				if f.Op == "true" && f.Truth {
 					if vc, _ := callOf(f.X); vc != nil && vc.Call.StaticCallee() == valid {
@@ -200,10 +226,8 @@ func runC11(c *Ctx) {
 							avail = true
 						}
 					}
-					if avail {
-						if uc, _ := callOf(stripIntConv(w.resolveLoad(stripIntConv(f.Y)))); uc != nil && uc.Call.StaticCallee() != nil && uc.Call.StaticCallee().Name() == "Uint16" {
-							okLen = true
-						}
+					if avail && isDeclared(f.Y) {
+						okLen = true
 					}
 				}
 			}
@@ -225,11 +249,20 @@ func runC11(c *Ctx) {
 			if !ok || fieldOf(fa) != dataF {
 				return
 			}
-			if sl, isS := st.Val.(*ssa.Slice); isS && sl.High != nil && sl.Low == nil {
-				isDeclared := func(v ssa.Value) bool {
-					uc, _ := callOf(stripIntConv(w.resolveLoad(stripIntConv(v))))
-					return uc != nil && uc.Call.StaticCallee() != nil && uc.Call.StaticCallee().Name() == "Uint16"
+			// Data = buf[4:end] with end = 4 + declared
+			if sl, isS := st.Val.(*ssa.Slice); isS && sl.High != nil && sl.Low != nil && bufV != nil && w.resolveLoad(sl.X) == bufV {
+				if lo, isK := constInt(sl.Low); isK && lo == 4 {
+					a := w.absint()
+					for _, d := range declared {
+						le, _ := a.proveLinearOff(termOf(d), termOf(sl.High), st, 4)
+						ge, _ := a.proveLinearOff(termOf(sl.High), termOf(d), st, -4)
+						if le && ge {
+							okTrunc = true
+						}
+					}
 				}
+			}
+			if sl, isS := st.Val.(*ssa.Slice); isS && sl.High != nil && sl.Low == nil {
 				if isDeclared(sl.High) {
 					okTrunc = true // Data[:declared] on the declared < len(Data) edge
 				}
@@ -667,30 +700,36 @@ func ruleChannelHeaderWritten(c *Ctx, rule string) {
 	w := c.W
 	wh := w.Func("proto", "ChannelData", "WriteHeader")
 	c.Anchor(rule, "WriteHeader")
-	okNum, okLen := false, false
-	w.eachInstr(wh, func(in ssa.Instruction) {
-		call, ok := in.(*ssa.Call)
-		if !ok || call.Call.StaticCallee() == nil || call.Call.StaticCallee().Name() != "PutUint16" {
-			return
+	// byte by byte, however the header is put together (two 16-bit writes, or one 32-bit word
+	// packed with shifts): Raw[0:2] = Number, Raw[2:4] = the low 16 bits of len(Data), big-endian
+	wr, overlap := w.wireWrites(wh, w.Field("proto", "ChannelData", "Raw"), 4)
+	isNum := func(v ssa.Value) bool {
+		if v == nil {
+			return false
 		}
-		_, lo, hi := sliceRange(call.Call.Args[1])
-		val := stripConv(call.Call.Args[2])
-		if lo == 0 && hi == 2 {
-			if _, f, isL := fieldLoad(val); isL && f.Name() == "Number" {
-				okNum = true
-			}
+		_, f, isL := fieldLoad(stripConv(v))
+		return isL && f.Name() == "Number"
+	}
+	isLen := func(v ssa.Value) bool {
+		if v == nil || unsignedWidth(v.Type()) != 2 {
+			return false
 		}
-		if lo == 2 && hi == 4 {
-			if t := termOf(val); t.Len {
-				if _, f, isL := fieldLoad(t.V); isL && f.Name() == "Data" {
-					okLen = true
-				}
-			}
+		t := termOf(stripConv(v))
+		if !t.Len || t.Cap {
+			return false
 		}
-	})
+		_, f, isL := fieldLoad(t.V)
+		return isL && f.Name() == "Data"
+	}
+	okNum := isNum(wr[0].val) && wr[0].idx == 1 && wr[1].val == wr[0].val && wr[1].idx == 0
+	okLen := isLen(wr[2].val) && wr[2].idx == 1 && wr[3].val == wr[2].val && wr[3].idx == 0
 	if okNum && okLen {
 		c.OK(rule, fname(wh), "WriteHeader", w.pos(wh.Pos()), "Raw[0:2] = Number, Raw[2:4] = len(Data)")
 	} else {
-		c.Bad(rule, fname(wh), "WriteHeader", w.pos(wh.Pos()), fmt.Sprintf("header fields are not Number (%v) and len(Data) (%v)", okNum, okLen))
+		why := fmt.Sprintf("header fields are not Number (%v) and len(Data) (%v)", okNum, okLen)
+		if overlap != "" {
+			why += ": the word written at " + overlap + " is put together from parts that overlap — a part wider than its field (a length not cut to 16 bits before it is merged in) spills into the neighbouring field"
+		}
+		c.Bad(rule, fname(wh), "WriteHeader", w.pos(wh.Pos()), why)
 	}
 }
